@@ -62,33 +62,9 @@ def PRE_INSTALL():
 
 
 def POST_INSTALL():
-    from symx import shim, explore
+    from symx import shim
     shim.NPFacade.unique = _facade_unique
     shim.NPFacade.mean = _facade_mean
-    # per-path memo of decisions: the same condition (same simplified z3 term) asked again on one path gets the same answer without
-    # another solver call / stack entry (the triangle code evaluates the same comparisons several times: mask, containing_indices, ...)
-    if not getattr(explore.Explorer, "_c20_memo", False):
-        orig_decide, orig_begin = explore.Explorer.decide, explore.Explorer._begin_path
-
-        def _begin_path(self):
-            self._decide_memo = {}
-            return orig_begin(self)
-
-        def decide(self, c, payload_fn=None):
-            if isinstance(c, bool):
-                return c
-            cs = z3.simplify(c)
-            k = cs.get_id()
-            hit = self._decide_memo.get(k)
-            if hit is not None:
-                return hit[1]
-            r = orig_decide(self, cs, payload_fn)
-            self._decide_memo[k] = (cs, r)
-            return r
-
-        explore.Explorer.decide = decide
-        explore.Explorer._begin_path = _begin_path
-        explore.Explorer._c20_memo = True
 
 
 # ---------------------------------------------------------------------------------------------------------------
@@ -532,6 +508,37 @@ def _sel(T, sub):
     return [len(ts), canon_set(ts)]
 
 
+def read_geometry(T):
+    """evaluate every geometric query of a set (a history step: whatever is read here must not influence later derived objects)"""
+    from autoarray.structures.triangles import shape as S
+    out = []
+    for f in (lambda: T.triangles, lambda: T.area, lambda: len(T), lambda: T.means, lambda: T.vertices, lambda: T.indices,
+              lambda: T.up_sample().triangles, lambda: T.neighborhood().triangles, lambda: T.for_indexes(np.array([0])).triangles,
+              lambda: T.containing_indices(S.Point(0.125, 0.0625)), lambda: [t for t in T]):
+        out.append(_safe(f))
+    return out
+
+
+def derived_obligations(A, E, tag, D, W, idx):
+    """D = <some set>.with_vertices(W): D must describe W[idx] - triangles, area, len - whatever was read on the parent before"""
+    idx = np.asarray(idx)
+    W = np.asarray(W)
+    PW = [[(W[i, 0], W[i, 1]) for i in row] for row in idx]
+    if not _ok(D):
+        A[tag + "with_vertices"] = D
+        E[tag + "with_vertices"] = "no exception"
+        return PW
+    A[tag + "with_vertices.triangles_are_new_vertices[indices]"] = _safe(lambda: np.asarray(hx.unwrap(D.triangles)).reshape(-1, 3, 2))
+    E[tag + "with_vertices.triangles_are_new_vertices[indices]"] = W[idx].reshape(-1, 3, 2)
+    A[tag + "with_vertices.vertices"] = _safe(lambda: np.asarray(hx.unwrap(D.vertices)).reshape(-1, 2))
+    E[tag + "with_vertices.vertices"] = W.reshape(-1, 2)
+    A[tag + "with_vertices.len"] = _safe(lambda: len(D))
+    E[tag + "with_vertices.len"] = len(PW)
+    A[tag + "NL.with_vertices.area"] = _safe(lambda: D.area)
+    E[tag + "NL.with_vertices.area"] = shoelace_sum(PW)
+    return PW
+
+
 # ---------------------------------------------------------------------------------------------------------------
 # integer-coordinate representation: concrete lattice coordinates / flip state, symbolic side length and offsets
 
@@ -564,6 +571,11 @@ def body_coord(inp, subsets="few"):
     A["NL.array_of_coord.area"] = _safe(lambda: AT.area)
     E["NL.array_of_coord.area"] = area_geo
     set_obligations(A, E, "array_of_coord.", AT, P, area_geo, subs[:2])
+    # histories: both objects have been read above; replacing the vertices must give sets that describe the NEW vertices
+    nv = int(np.asarray(hx.unwrap(T.vertices)).reshape(-1, 2).shape[0])
+    W = np.asarray(inp["new_vertices"]).reshape(-1, 2)[:nv]
+    derived_obligations(A, E, "coord.after_reads.", _safe(lambda: T.with_vertices(W)), W, T.indices)
+    derived_obligations(A, E, "array_of_coord.after_reads.", _safe(lambda: AT.with_vertices(W)), W, AT.indices)
     return A, E
 
 
@@ -577,7 +589,8 @@ def case_coord(ctx, sets, subsets="few"):
     ctx.assume(s.t > 0)
     _POS.clear()
     _POS.add("side")
-    inputs = {"coords": np.array(coords, dtype=int).reshape(-1, 2), "flipped": bool(flipped), "side": s, "x_offset": xo, "y_offset": yo}
+    inputs = {"coords": np.array(coords, dtype=int).reshape(-1, 2), "flipped": bool(flipped), "side": s, "x_offset": xo, "y_offset": yo,
+              "new_vertices": V.real_array("w", (3 * len(coords), 2))}
     _run(ctx, body_coord, inputs, {"subsets": subsets}, validate_every=4)
 
 
@@ -609,11 +622,13 @@ def case_limits(ctx, limits, lo, hi):
 # ---------------------------------------------------------------------------------------------------------------
 # vertex-array representation with symbolic vertex coordinates
 
-def body_array(inp, indices, mesh=None, subsets="all"):
+def body_array(inp, indices, mesh=None, subsets="all", reads=False):
     from autoarray.structures.triangles.array import ArrayTriangles
     A, E = {}, {}
     if mesh is not None:
         base = ArrayTriangles.for_limits_and_scale(*mesh)
+        if reads:
+            read_geometry(base)         # history: the concrete mesh is inspected before its vertices are replaced
         s, ty, tx = inp["scale"], inp["shift"][0], inp["shift"][1]
         bv = np.asarray(base.vertices, dtype=float)
         # for_limits_and_scale builds the rows with float steps of scale*sqrt(3)/2, so its vertices are a lattice only up to rounding;
@@ -642,6 +657,14 @@ def body_array(inp, indices, mesh=None, subsets="all"):
     A["NL.array.area"] = _safe(lambda: T.area)
     E["NL.array.area"] = area_geo
     set_obligations(A, E, "array.", T, P, area_geo, _subsets(len(P), subsets))
+    # history: T has been read above (triangles, area, len, up_sample, neighborhood, for_indexes)
+    if mesh is None:
+        W2 = np.asarray(inp["new_vertices"]).reshape(-1, 2)
+    else:
+        W2 = np.empty(verts.shape, dtype=verts.dtype)
+        for i in range(verts.shape[0]):
+            W2[i, 0], W2[i, 1] = 2 * verts[i, 1] + 1, verts[i, 0] - verts[i, 1] / 2
+    derived_obligations(A, E, "array.after_reads.", _safe(lambda: T.with_vertices(W2)), W2, idx)
     return A, E
 
 
@@ -651,13 +674,72 @@ def case_array(ctx, indices, nv, subsets="all"):
     _run(ctx, body_array, inputs, {"indices": indices, "subsets": subsets}, validate_every=8)
 
 
-def case_mesh(ctx, mesh):
+def case_mesh(ctx, mesh, reads=False):
     s = V.real("scale")
     ctx.assume(s.t > 0)
     _POS.clear()
     _POS.add("scale")
     inputs = {"scale": s, "shift": [V.real("ty"), V.real("tx")]}
-    _run(ctx, body_array, inputs, {"indices": None, "mesh": mesh, "subsets": "few"}, validate_every=1)
+    _run(ctx, body_array, inputs, {"indices": None, "mesh": mesh, "subsets": "few", "reads": reads}, validate_every=1)
+
+
+def body_history(inp, base, indices, lattice):
+    """two- and three-step histories on vertex arrays: a concrete set is fully read, then with_vertices(symbolic W) -> D (all obligations
+    on D, which reads D), then D.with_vertices(integer-dtype lattice) -> L (all obligations on L)"""
+    from autoarray.structures.triangles.array import ArrayTriangles
+    idx = np.array(indices, dtype=int).reshape(-1, 3)
+    A, E = {}, {}
+    T = ArrayTriangles(indices=idx, vertices=np.array(base, dtype=float).reshape(-1, 2))
+    read_geometry(T)
+    W = np.asarray(inp["new_vertices"]).reshape(-1, 2)
+    D = _safe(lambda: T.with_vertices(W))
+    PW = derived_obligations(A, E, "history.read_then_", D, W, idx)
+    if _ok(D):
+        set_obligations(A, E, "history.read_then_with_vertices.", D, PW, shoelace_sum(PW), _subsets(len(PW), "all"))
+        L = np.array(lattice, dtype=np.int64).reshape(-1, 2)
+        DL = _safe(lambda: D.with_vertices(L))
+        PL = derived_obligations(A, E, "history.read_then_with_vertices.read_then_int_", DL, L, idx)
+        if _ok(DL):
+            set_obligations(A, E, "history.int_lattice.", DL, PL, shoelace_sum(PL), _subsets(len(PL), "all"))
+    return A, E
+
+
+def case_history(ctx, base, indices, lattice):
+    _POS.clear()
+    nv = len(base) // 2
+    _run(ctx, body_history, {"new_vertices": V.real_array("w", (nv, 2))}, {"base": base, "indices": indices, "lattice": lattice}, validate_every=8)
+
+
+def body_int(inp, indices):
+    """vertex arrays of INTEGER dtype (the values are enumerated by the explorer; edge midpoints are half-integers for odd coordinate sums)"""
+    from autoarray.structures.triangles.array import ArrayTriangles
+    idx = np.array(indices, dtype=int).reshape(-1, 3)
+    verts = np.array(inp["vertices"], dtype=np.int64).reshape(-1, 2)
+    A, E = {}, {}
+    T = ArrayTriangles(indices=idx, vertices=verts)
+    P = [[(int(verts[i, 0]), int(verts[i, 1])) for i in row] for row in idx]
+    A["int.triangles"] = _safe(lambda: np.asarray(T.triangles).reshape(-1, 3, 2))
+    E["int.triangles"] = verts[idx].reshape(-1, 3, 2)
+    area_geo = shoelace_sum(P)
+    A["NL.int.area"] = _safe(lambda: T.area)
+    E["NL.int.area"] = area_geo
+    set_obligations(A, E, "int.", T, P, area_geo, _subsets(len(P), "all"))
+    return A, E
+
+
+def case_int(ctx, indices, nv, lo, hi, fixed=None):
+    _POS.clear()
+    vals = []
+    for j in range(2 * nv):
+        if fixed is not None and fixed[j] is not None:
+            vals.append(int(fixed[j]))
+            continue
+        t = V.integer("iv%d" % j)
+        ctx.assume(z3.And(t.t >= lo, t.t <= hi))
+        vals.append(ctx.concretize_int(t.t))
+    verts = np.array(vals, dtype=np.int64).reshape(nv, 2)
+    ctx.set_case(int_vertices=verts.tolist())
+    _run(ctx, body_int, {"vertices": verts}, {"indices": indices}, validate_every=16)
 
 
 def body_kernels(inp, indices):
@@ -842,7 +924,7 @@ class StopCase(Exception):
 
 
 BODIES = {"case_coord": body_coord, "case_limits": body_limits, "case_array": body_array, "case_mesh": body_array,
-          "case_kernels": body_kernels, "case_shape": body_shape}
+          "case_kernels": body_kernels, "case_shape": body_shape, "case_history": body_history, "case_int": body_int}
 
 
 def replay(cand):
@@ -856,7 +938,9 @@ def replay(cand):
     elif fn == "case_array":
         kw = {"indices": kw["indices"], "subsets": kw.get("subsets", "all")}
     elif fn == "case_mesh":
-        kw = {"indices": None, "mesh": kw["mesh"], "subsets": "few"}
+        kw = {"indices": None, "mesh": kw["mesh"], "subsets": "few", "reads": kw.get("reads", False)}
+    elif fn == "case_int":
+        kw = {"indices": kw["indices"]}
     elif fn == "case_kernels":
         kw = {"indices": kw["indices"]}
     elif fn == "case_shape":
@@ -930,9 +1014,22 @@ def cases(tier):
     out.append(("case_kernels", {"indices": [[0, 1, 2], [1, 2, 3]], "nv": 4}))
     out.append(("case_kernels", {"indices": [[0, 1, 2], [3, 4, 5]], "nv": 6}))
     out.append(("case_mesh", {"mesh": [0.0, 1.0, 0.0, 1.0, 1.0]}))
+    out.append(("case_mesh", {"mesh": [0.0, 1.0, 0.0, 1.0, 1.0], "reads": True}))
+    # histories (read geometry, then derive) and integer-dtype vertex arrays
+    tri, lat1 = [0.0, 0.0, 1.0, 0.0, 0.0, 1.0], [0, 0, 3, 0, 1, 2]
+    out.append(("case_history", {"base": tri, "indices": [[0, 1, 2]], "lattice": lat1}))
+    out.append(("case_int", {"indices": [[0, 1, 2]], "nv": 3, "lo": -1, "hi": 1}, {"split": 3}))
+    out.append(("case_int", {"indices": [[0, 1, 2]], "nv": 3, "lo": 2, "hi": 5, "fixed": [0, 0, None, None, 3, None]}))
+    out.append(("case_int", {"indices": [[0, 1, 2], [1, 2, 3]], "nv": 4, "lo": -1, "hi": 1, "fixed": [0, 0, None, None, None, None, 3, 2]}))
     if tier != "quick":
         out.append(("case_array", {"indices": [[0, 1, 2], [1, 2, 3]], "nv": 4, "subsets": "all"}, {"split": 5}))
         out.append(("case_mesh", {"mesh": [0.0, 1.0, 0.0, 2.0, 0.5]}))
+        out.append(("case_mesh", {"mesh": [0.0, 1.0, 0.0, 2.0, 0.5], "reads": True}))
+        out.append(("case_history", {"base": [0.0, 0.0, 1.0, 0.0, 0.0, 1.0, 1.0, 1.0], "indices": [[0, 1, 2], [1, 2, 3]],
+                                     "lattice": [0, 0, 1, 0, 0, 1, 2, 3]}, {"split": 5}))
+        out.append(("case_int", {"indices": [[0, 1, 2]], "nv": 3, "lo": -1, "hi": 2}, {"split": 5}))
+        out.append(("case_int", {"indices": [[0, 1, 2]], "nv": 3, "lo": -3, "hi": 3, "fixed": [0, 0, None, None, None, None]}, {"split": 4}))
+        out.append(("case_int", {"indices": [[0, 1, 2], [1, 2, 3]], "nv": 4, "lo": -1, "hi": 1, "fixed": [0, 0, None, None, None, None, None, None]}, {"split": 4}))
         out.append(("case_kernels", {"indices": [[0, 1, 2], [1, 2, 3], [2, 3, 4]], "nv": 5}))
     # containment
     S1, S2, S3 = ([[0, 0]], False, 1.0), ([[1, 0]], False, 1.0), ([[0, 0]], True, 0.5)
@@ -995,8 +1092,6 @@ STUBS = [
     "comparison either decided from the linear forms under the positivity assumption (side length / scale > 0) or forked and decided by z3; "
     "concrete arrays go to the real np.unique",
     "np.mean on proxies: sum / count",
-    "Explorer.decide is wrapped (POST_INSTALL) with a per-path memo: a condition already decided on the current path returns the recorded outcome "
-    "(it is part of the path condition) instead of a new solver query",
     "ordering shortcut: a comparison whose difference is a linear form c0 + sum c_i*v_i over variables assumed > 0 with all c_i, c0 of one sign "
     "is decided without the solver; every 64th such decision is re-decided by z3 (disagreement = harness error)",
     "HEIGHT_FACTOR = 3**0.5/2 enters as the exact rational value of its float64 (all checked identities are polynomial identities that hold for any value of it)",
